@@ -100,6 +100,11 @@ def instr? (t : String) : Option Instr :=
   | ["wrapb", a] => (reg? a).map .wrapb
   | ["wrapx", a] => (reg? a).map .wrapx
   | ["bin", op, a, b] => do pure (.bin (← binop? op) (← reg? a) (← reg? b))
+  | ["iop", op, a, b] => do
+    -- augmented assignment on a second reference (`t = a; t op= b`): no class of the modelled tree defines `__iadd__` & co, so
+    -- Python evaluates `t = t op b`; values are immutable in the model, so this is the ordinary binary operator
+    let o ← binop? op
+    if [BinOp.lt, .le, .eq, .ne, .gt, .ge, .divmod].contains o then none else pure (.bin o (← reg? a) (← reg? b))
   | ["un", op, a] => do pure (.un (← un? op) (← reg? a))
   | "call" :: m :: self :: args => do pure (.call (← meth? m) (← reg? self) (← regs? args))
   | ["ite", c, a, b] => do pure (.ite (← reg? c) (← reg? a) (← reg? b))
